@@ -21,6 +21,9 @@
 //! * `write-after-rename`    — data operation or file sync on a file whose
 //!                             rename has not been followed by a sync_dir of
 //!                             the source or destination directory
+//! * `rename-unsynced-create-cross-dir` — rename into another directory of a
+//!                             file whose creation has not been followed by
+//!                             a sync_dir of its parent
 //! * `recreate`              — creating a file (or renaming onto a name) where
 //!                             a regular file existed earlier in the history
 //!                             and whose removal / pending data has not been
@@ -37,8 +40,10 @@ pub struct Tracker {
     dirty: BTreeSet<String>,
     /// rename destinations not yet flushed: dest -> source parent
     renamed: BTreeMap<String, String>,
-    /// names at which a regular file died: path -> had unsynced data
+    /// names at which an object died: path -> had unsynced data
     dead: BTreeMap<String, bool>,
+    /// files whose creation has not been followed by a sync_dir of the parent
+    entry_unsynced: BTreeSet<String>,
 }
 
 fn is_file(t: &Tree, p: &str) -> bool {
@@ -76,14 +81,14 @@ fn data_effect(t: &Tree, op: &Op) -> Option<(String, bool, Option<bool>)> {
         Op::WriteAll { p, .. } => Some((p.clone(), true, Some(true))),
         Op::SyncAll { p, .. } | Op::SyncData { p, .. } => Some((p.clone(), true, Some(false))),
         Op::Open { p, fl, .. } => {
-            if fl.truncate && fl.write && !fl.create_new {
+            if fl.truncate && fl.write {
                 Some((p.clone(), true, Some(true)))
             } else {
                 None
             }
         }
         Op::Handle { p, fl, steps, .. } => {
-            let mut touched = fl.truncate && fl.write && !fl.create_new;
+            let mut touched = fl.truncate && fl.write;
             let mut dirty: Option<bool> = if touched { Some(true) } else { None };
             for s in steps {
                 match s {
@@ -147,6 +152,9 @@ impl Tracker {
                 if self.dirty.contains(a) {
                     return Some("rename-pending-data");
                 }
+                if parent_of(a) != parent_of(b) && self.entry_unsynced.contains(a) {
+                    return Some("rename-unsynced-create-cross-dir");
+                }
                 if is_file(t, b) && self.dirty.contains(b) {
                     return Some("rename-pending-data");
                 }
@@ -173,6 +181,7 @@ impl Tracker {
     }
 
     fn kill_file(&mut self, p: &str) {
+        self.entry_unsynced.remove(p);
         let stale = self.dirty.remove(p);
         self.renamed.remove(p);
         self.dead.insert(p.to_string(), stale);
@@ -193,6 +202,11 @@ impl Tracker {
                         if is_file(t, b) {
                             self.dirty.remove(b);
                             self.renamed.remove(b);
+                        }
+                        if self.entry_unsynced.remove(a) {
+                            self.entry_unsynced.insert(b.clone());
+                        } else {
+                            self.entry_unsynced.remove(b);
                         }
                         let was_dirty = self.dirty.remove(a);
                         self.renamed.remove(a);
@@ -238,6 +252,7 @@ impl Tracker {
                         .retain(|dst, srcpar| !(parent_of(dst) == *p || srcpar == p));
                     self.dead
                         .retain(|path, stale| *stale || parent_of(path) != *p);
+                    self.entry_unsynced.retain(|path| parent_of(path) != *p);
                 }
                 return;
             }
@@ -251,6 +266,9 @@ impl Tracker {
         }
         if let Some(p) = creates(t, op) {
             self.dead.remove(&p);
+            if is_file(&probe, &p) {
+                self.entry_unsynced.insert(p);
+            }
         }
         if let Op::CreateDirAll { p, .. } = op {
             let mut cur = String::new();
